@@ -14,7 +14,7 @@ import (
 func init() {
 	register(&propDef{
 		id: "C03", level: "proof", run: runC03,
-		explanation: "Structural proof over syntax+types: container structs hold only *XMsg/[]*XMsg with pairwise distinct element types (so Go's type checker pins each arm to its slot); each of the 17 routers is a type switch whose arms are in bijection with the container's fields and are exactly `x.F = &tmp` or `x.F = append(x.F, &tmp)` (optionally after tmp.expandComponents()) with an empty default; File.add routes the common messages and forwards everything else exactly once; File.init allocates and installs the container matching the file type and rejects every other value on all paths; accessors and Encode's switch use the same (file type, container) pairing; the decoder calls File.add only on the error-free path, once per record. Trusted: the argument that these obligations imply the statement (DESIGN.md C03).",
+		explanation: "Structural proof over syntax+types: container structs hold only *XMsg/[]*XMsg with pairwise distinct element types (so Go's type checker pins each arm to its slot); each of the 17 routers is a type switch whose arms are in bijection with the container's fields and are exactly `x.F = &tmp` or `x.F = append(x.F, &tmp)` (optionally after tmp.expandComponents()) with an empty default; File.add routes the common messages and forwards everything else exactly once; File.init allocates and installs the container matching the file type and rejects every other value on all paths; accessors and Encode's switch use the same (file type, container) pairing; the decoder calls File.add only on the error-free path, once per record. Trusted: the argument that these obligations imply the statement (DESIGN.md C03). Also: File.FileId is written only by File.add on the decode path, and the C13 slot rules run here as the premise that the message handed to the router is the one its own local slot defines.",
 		trusted:     []string{"Go semantics of type switch, append and assignment", "go/types", "go/ssa dominator tree", "the paper argument of DESIGN.md section C03 that obligations 1-6 imply the routing statement"},
 	})
 }
@@ -289,6 +289,10 @@ func runC03(c *Ctx, r *Report) {
 	// ---- obligation 6: decoder adds only complete, valid messages -----------------
 	c03DecoderAdds(c, r)
 	c03ContainerWriters(c, r)
+	// premise of routing: the message handed to the router is the one the record's own local slot defines
+	// (slot stores and fresh definitions: the C13 rules for the 16 definition slots)
+	c13Slots(c, r)
+	c13Fresh(c, r)
 
 	_ = info
 	r.need("containers", len(conts), 17)
@@ -1121,6 +1125,19 @@ func c03ContainerWriters(c *Ctx, r *Report) {
 		return nil
 	}
 	nSites, nOutside := 0, 0
+	// File.FileId is the container of the file_id message: on the decode path only File.add may
+	// write it (a message is stored when it is complete, never filled in place)
+	var fileNamed *types.Named
+	if fo := c.fit.Types.Scope().Lookup("File"); fo != nil {
+		fileNamed, _ = fo.Type().(*types.Named)
+	}
+	decReach := map[*ssa.Function]bool{}
+	if dec := c.ssaFn(c.fn(c.fit, "decoder.decode")); dec != nil {
+		for _, f := range c.reach([]*ssa.Function{dec}).order {
+			decReach[f] = true
+		}
+	}
+	nFileId := 0
 	for _, fn := range c.moduleFuncs() {
 		if fnPkgPath(fn) != modPath || !inLib(fn) {
 			continue
@@ -1132,6 +1149,14 @@ func c03ContainerWriters(c *Ctx, r *Report) {
 					continue
 				}
 				ct := contOf(fa.X.Type())
+				if ct == nil && fileNamed != nil && decReach[fn] {
+					if pt, ok := fa.X.Type().Underlying().(*types.Pointer); ok && pt.Elem() == types.Type(fileNamed) {
+						if fileNamed.Underlying().(*types.Struct).Field(fa.Field).Name() == "FileId" {
+							ct = fileNamed
+							nFileId++
+						}
+					}
+				}
 				if ct == nil {
 					continue
 				}
@@ -1140,66 +1165,80 @@ func c03ContainerWriters(c *Ctx, r *Report) {
 				if fn.Signature.Recv() != nil && fn.Name() == "add" && contOf(fn.Signature.Recv().Type()) == ct {
 					continue
 				}
+				if ct == fileNamed && fn.Signature.Recv() != nil && fn.Name() == "add" {
+					if pt, ok := fn.Signature.Recv().Type().(*types.Pointer); ok && pt.Elem() == types.Type(fileNamed) {
+						continue
+					}
+				}
 				nOutside++
 				member := ct.Obj().Name() + "." + ct.Underlying().(*types.Struct).Field(fa.Field).Name()
 				key := fn.Name() + "/" + member
-				bad := ""
-				var visit func(v ssa.Value, isAddr bool, depth int)
-				visit = func(v ssa.Value, isAddr bool, depth int) {
-					if bad != "" || depth > 6 || v.Referrers() == nil {
-						return
-					}
-					for _, ref := range *v.Referrers() {
-						switch u := ref.(type) {
-						case *ssa.DebugRef:
-						case *ssa.Store:
-							if isAddr && u.Addr == v {
-								bad = "assigned at " + c.pos(u.Pos())
-							} else if u.Val == v {
-								bad = "stored elsewhere at " + c.pos(u.Pos()) + " (alias that can be modified later)"
-							}
-						case *ssa.UnOp:
-							if u.Op == token.MUL {
-								visit(u, false, depth+1)
-							}
-						case *ssa.IndexAddr:
-							visit(u, true, depth+1)
-						case *ssa.FieldAddr:
-							visit(u, true, depth+1)
-						case *ssa.Slice:
-							visit(u, false, depth+1)
-						case *ssa.Index, *ssa.Field, *ssa.BinOp, *ssa.Return, *ssa.Phi, *ssa.If, *ssa.Extract:
-						case *ssa.MakeInterface:
-							bad = "boxed into an interface at " + c.pos(u.Pos()) + " (reflect or sort can modify it)"
-						case *ssa.Call:
-							cc := u.Common()
-							if bi, ok := cc.Value.(*ssa.Builtin); ok && (bi.Name() == "len" || bi.Name() == "cap") {
-								continue
-							}
-							if bi, ok := cc.Value.(*ssa.Builtin); ok && bi.Name() == "copy" && len(cc.Args) == 2 && cc.Args[1] == v && cc.Args[0] != v {
-								continue
-							}
-							if f := cc.StaticCallee(); f != nil && f.Signature.Recv() != nil && len(cc.Args) > 0 && cc.Args[0] == v && !isAddr {
-								// method call on a loaded element value (e.g. expandComponents on *Msg): element methods are covered by C18/C08
-								continue
-							}
-							bad = "passed to " + calleeName(cc) + " at " + c.pos(u.Pos())
-						default:
-							bad = fmt.Sprintf("used by %T at %s", ref, c.pos(ref.Pos()))
-						}
-						if bad != "" {
-							return
-						}
-					}
-				}
-				visit(fa, true, 0)
+				bad := readOnlyUses(c, fa)
 				r.check(bad == "", "C03-7-container-writers", key, c.pos(fa.Pos()), "read only outside the router", "container member "+member+" is "+bad+" outside "+ct.Obj().Name()+".add: the stream order / last-wins content established by the router can change after the message was stored")
 			}
 		}
 	}
 	r.set("container_member_accesses", nSites)
 	r.need("container member accesses", nSites, 60)
+	r.need("accesses to File.FileId on the decode path", nFileId, 1)
 	r.ok("C03-7-container-writers", "scan", "", fmt.Sprintf("%d accesses to container members, %d outside the routers", nSites, nOutside))
+}
+
+// readOnlyUses: every use of the address v (a member of a structure) and of what is loaded from it
+// is a read: loads, len/cap, index reads, returns, comparisons. An assignment through it, a write
+// through an index, boxing into an interface or passing it to a function is returned as text.
+func readOnlyUses(c *Ctx, root ssa.Value) string {
+	bad := ""
+	var visit func(v ssa.Value, isAddr bool, depth int)
+	visit = func(v ssa.Value, isAddr bool, depth int) {
+		if bad != "" || depth > 6 || v.Referrers() == nil {
+			return
+		}
+		for _, ref := range *v.Referrers() {
+			switch u := ref.(type) {
+			case *ssa.DebugRef:
+			case *ssa.Store:
+				if isAddr && u.Addr == v {
+					bad = "assigned at " + c.pos(u.Pos())
+				} else if u.Val == v {
+					bad = "stored elsewhere at " + c.pos(u.Pos()) + " (alias that can be modified later)"
+				}
+			case *ssa.UnOp:
+				if u.Op == token.MUL {
+					visit(u, false, depth+1)
+				}
+			case *ssa.IndexAddr:
+				visit(u, true, depth+1)
+			case *ssa.FieldAddr:
+				visit(u, true, depth+1)
+			case *ssa.Slice:
+				visit(u, false, depth+1)
+			case *ssa.Index, *ssa.Field, *ssa.BinOp, *ssa.Return, *ssa.Phi, *ssa.If, *ssa.Extract:
+			case *ssa.MakeInterface:
+				bad = "boxed into an interface at " + c.pos(u.Pos()) + " (reflect or sort can modify it)"
+			case *ssa.Call:
+				cc := u.Common()
+				if bi, ok := cc.Value.(*ssa.Builtin); ok && (bi.Name() == "len" || bi.Name() == "cap") {
+					continue
+				}
+				if bi, ok := cc.Value.(*ssa.Builtin); ok && bi.Name() == "copy" && len(cc.Args) == 2 && cc.Args[1] == v && cc.Args[0] != v {
+					continue
+				}
+				if f := cc.StaticCallee(); f != nil && f.Signature.Recv() != nil && len(cc.Args) > 0 && cc.Args[0] == v && !isAddr {
+					// method call on a loaded element value (e.g. expandComponents on *Msg): element methods are covered by C18/C08
+					continue
+				}
+				bad = "passed to " + calleeName(cc) + " at " + c.pos(u.Pos())
+			default:
+				bad = fmt.Sprintf("used by %T at %s", ref, c.pos(ref.Pos()))
+			}
+			if bad != "" {
+				return
+			}
+		}
+	}
+	visit(root, true, 0)
+	return bad
 }
 
 // recordDispatchFn: the per-record dispatcher, found by what it does rather than by name: the
